@@ -84,22 +84,22 @@ impl NetworkFilter {
 //@ BEFORE
     match &self.filter
 //@ AT
-        proof { assert(all_sound(*self, tokens@)); }
+        proof { assert(all_sound(*self, tokens@)); } // OBL C01.get_tokens.sound
 //@ ENDBEFORE
 //@ BEFORE
     if !self.mask.contains(NetworkFilterMask::IS_HOSTNAME_REGEX)
 //@ AT
-        proof { assert(all_sound(*self, tokens@)); }
+        proof { assert(all_sound(*self, tokens@)); } // OBL C01.get_tokens.sound
 //@ ENDBEFORE
 //@ BEFORE
     if tokens.is_empty() && self.mask.contains(NetworkFilterMask::IS_REMOVEPARAM)
 //@ AT
-        proof { assert(all_sound(*self, tokens@)); }
+        proof { assert(all_sound(*self, tokens@)); } // OBL C01.get_tokens.sound
 //@ ENDBEFORE
 //@ BEFORE
     if tokens.is_empty() && self.opt_domains.is_some()
 //@ AT
-        proof { assert(all_sound(*self, tokens@)); }
+        proof { assert(all_sound(*self, tokens@)); } // OBL C01.get_tokens.sound
 //@ ENDBEFORE
 //@ SUBST R1
     utils::tokenize_filter(
